@@ -297,6 +297,7 @@ Lemma begin_wait_inv : forall nfd l t n d c fd,
   Inv nfd l t n -> in_u64 c = true -> 0 <= fd < nfd -> aget c t = None ->
   bound_ok (n_bind n) c fd = true -> zmem fd (n_closed n) = false ->
   exists l1, begin_wait l d c fd = (true, l1) /\ l_sys l1 = t /\ zmem c (l_cotok l1) = true
+             /\ l_ctags l1 = l_ctags l
              /\ Inv nfd l1 t (snd (nd_step t n (Wait d c fd))).
 Proof.
   intros nfd l t n d c fd I Hc Hfd Hn Hb Hcl.
@@ -329,7 +330,8 @@ Proof.
   - destruct (add_write_full _ tb fd c S K Op) as [s' [E TS]].
     destruct (add_write_spec _ tb S K fd c) as [ok [s'' [E2 [Hs' Rc]]]]. rewrite E in E2.
     inversion E2; subst ok s''. clear E2. destruct Rc as [Ro [Rr [Rw _]]]. rewrite E. cbv beta iota.
-    eexists. split; [reflexivity|]. cbn [l_sys l_cotok]. split; [exact Y|]. split; [now rewrite zmem_zadd, Z.eqb_refl|].
+    eexists. split; [reflexivity|]. cbn [l_sys l_cotok l_ctags]. split; [exact Y|]. split; [now rewrite zmem_zadd, Z.eqb_refl|].
+    split; [reflexivity|].
     cbn [nd_step snd]. constructor; cbn [l_sel l_sys l_cotok n_bind n_r n_w n_closed]; auto.
     + intros x Hx. rewrite Ro. now apply O.
     + intros x. rewrite Rr. unfold keepm. apply RR.
@@ -339,7 +341,8 @@ Proof.
   - destruct (add_read_full _ tb fd c S K Op) as [s' [E TS]].
     destruct (add_read_spec _ tb S K fd c) as [ok [s'' [E2 [Hs' Rc]]]]. rewrite E in E2.
     inversion E2; subst ok s''. clear E2. destruct Rc as [Ro [Rr [Rw _]]]. rewrite E. cbv beta iota.
-    eexists. split; [reflexivity|]. cbn [l_sys l_cotok]. split; [exact Y|]. split; [now rewrite zmem_zadd, Z.eqb_refl|].
+    eexists. split; [reflexivity|]. cbn [l_sys l_cotok l_ctags]. split; [exact Y|]. split; [now rewrite zmem_zadd, Z.eqb_refl|].
+    split; [reflexivity|].
     cbn [nd_step snd]. constructor; cbn [l_sel l_sys l_cotok n_bind n_r n_w n_closed]; auto.
     + intros x Hx. rewrite Ro. now apply O.
     + intros x. rewrite Rr, zmem_zadd. unfold addm. now rewrite RR.
@@ -351,10 +354,11 @@ Qed.
 Definition step_ok (nfd : Z) (l : loop) (t : list (Z * want)) (n : nd) (o : op) : Prop :=
   fst (ok_step t o (snd (step l o))) = true
   /\ snd (ok_step t o (snd (step l o))) = spec_step t o
-  /\ Inv nfd (fst (step l o)) (spec_step t o) (snd (nd_step t n o)).
+  /\ Inv nfd (fst (step l o)) (spec_step t o) (snd (nd_step t n o))
+  /\ l_ctags (fst (step l o)) = l_ctags l.
 
 Lemma wf_wait_bits : forall nfd (t : list (Z * want)) c fd,
-  in_u64 c && (0 <=? fd) && (fd <? nfd) && match aget c t with None => true | Some _ => false end = true ->
+  in_u64 c && (1 <=? fd) && (fd <? nfd) && match aget c t with None => true | Some _ => false end = true ->
   in_u64 c = true /\ 0 <= fd < nfd /\ aget c t = None.
 Proof.
   intros nfd t c fd H. apply andb_true_iff in H as [H Hn]. apply andb_true_iff in H as [H H3].
@@ -367,9 +371,9 @@ Lemma step_wait : forall nfd l t n d c fd,
 Proof.
   intros nfd l t n d c fd I Hwf Hp. cbn [wf_op] in Hwf. destruct (wf_wait_bits nfd t c fd Hwf) as [Hc [Hfd Hn]].
   cbn [nd_step fst] in Hp. apply andb_true_iff in Hp as [Hb Hcl]. apply negb_true_iff in Hcl.
-  destruct (begin_wait_inv nfd l t n d c fd I Hc Hfd Hn Hb Hcl) as [l1 [E [Y1 [C1 I1]]]].
+  destruct (begin_wait_inv nfd l t n d c fd I Hc Hfd Hn Hb Hcl) as [l1 [E [Y1 [C1 [G1 I1]]]]].
   unfold step_ok. cbn [step]. rewrite (i_sys _ _ _ _ I), Hn, E. cbn [fst snd ok_step spec_step].
-  split; [reflexivity|]. split; [reflexivity|].
+  split; [reflexivity|]. split; [reflexivity|]. split; [|exact G1].
   destruct I1 as [S Y Ut Ub J R O RR WR T L V].
   constructor; cbn [with_sys l_sel l_sys l_cotok]; auto.
   - now rewrite Y1.
@@ -389,9 +393,9 @@ Lemma step_waitt : forall nfd l t n d c fd,
 Proof.
   intros nfd l t n d c fd I Hwf Hp. cbn [wf_op] in Hwf. destruct (wf_wait_bits nfd t c fd Hwf) as [Hc [Hfd Hn]].
   cbn [nd_step fst] in Hp. apply andb_true_iff in Hp as [Hb Hcl]. apply negb_true_iff in Hcl.
-  destruct (begin_wait_inv nfd l t n d c fd I Hc Hfd Hn Hb Hcl) as [l1 [E [Y1 [C1 I1]]]].
+  destruct (begin_wait_inv nfd l t n d c fd I Hc Hfd Hn Hb Hcl) as [l1 [E [Y1 [C1 [G1 I1]]]]].
   unfold step_ok. cbn [step]. rewrite (i_sys _ _ _ _ I), Hn, E. cbn [fst snd ok_step spec_step].
-  split; [reflexivity|]. split; [reflexivity|]. exact I1.
+  split; [reflexivity|]. split; [reflexivity|]. split; [exact I1|exact G1].
 Qed.
 
 Lemma step_ready : forall nfd l t n d fd,
@@ -411,13 +415,13 @@ Proof.
   2: { cbn [fst snd ok_step spec_step].
        assert (Hw : waiters_on fd d t = []).
        { apply waiters_none; [exact Ut|]. intros c' H. destruct (REG c' H) as [e [G2 _]]. discriminate. }
-       rewrite Hw. cbn [is_nil fold_left]. split; [reflexivity|]. split; [reflexivity|]. exact I0. }
+       rewrite Hw. cbn [is_nil fold_left]. split; [reflexivity|]. split; [reflexivity|]. split; [exact I0|reflexivity]. }
   destruct (if d then k_w e else k_r e) eqn:F.
   2: { cbn [fst snd ok_step spec_step].
        assert (Hw : waiters_on fd d t = []).
        { apply waiters_none; [exact Ut|]. intros c' H. destruct (REG c' H) as [e' [G2 F2]].
          inversion G2; subst e'. congruence. }
-       rewrite Hw. cbn [is_nil fold_left]. split; [reflexivity|]. split; [reflexivity|]. exact I0. }
+       rewrite Hw. cbn [is_nil fold_left]. split; [reflexivity|]. split; [reflexivity|]. split; [exact I0|reflexivity]. }
   destruct (T fd e G) as [c [B Tk]]. rewrite Tk. destruct (R c fd B) as [Rc _]. rewrite (roundtrip c Rc). rewrite Y.
   assert (Huniq : forall c' w, aget c' t = Some (fd, w) -> c' = c).
   { intros c' w H. destruct (L c' fd w H Hnv) as [L1 _]. exact (J c' c fd L1 B). }
@@ -437,6 +441,7 @@ Proof.
     cbn [fst snd ok_step spec_step].
     rewrite (waiters_one fd d t c Ut Gc (fun c' H => Huniq c' d H)).
     split; [apply same_set_refl1|]. split; [reflexivity|]. cbn [fold_left].
+    split; [|cbn [l_ctags]; now rewrite same_set_refl1].
     constructor; cbn [l_sel l_sys l_cotok]; auto.
     + now apply sinv_deliver.
     + now apply ukeys_arem.
@@ -454,6 +459,7 @@ Proof.
     { destruct (zmem c (l_cotok l)); reflexivity. }
     cbn [fst snd ok_step spec_step]. rewrite Hw, Hwk. cbn [fold_left].
     split; [reflexivity|]. split; [reflexivity|].
+    split; [|reflexivity].
     constructor; cbn [l_sel l_sys l_cotok]; auto.
     + now apply sinv_deliver.
     + destruct (zmem c (l_cotok l)); [|reflexivity]. now apply arem_none.
@@ -535,7 +541,7 @@ Proof.
   destruct (v_kern _ S) as [tb K].
   destruct (el_del_event_spec _ tb fd S K) as [s' [E [S' [Ro [Rr [Rw _]]]]]].
   unfold step_ok. cbn [step nd_step snd]. rewrite E. cbn [fst snd ok_step spec_step].
-  split; [reflexivity|]. split; [reflexivity|]. rewrite Y.
+  split; [reflexivity|]. split; [reflexivity|]. split; [|reflexivity]. rewrite Y.
   apply (forget_inv nfd l t n fd s' (void_fd fd t) (n_closed n) (fun f _ => f =? fd) I0 Hfd S'); auto.
   - intros x Hx. rewrite Ro. now apply O.
   - rewrite (tbl_one _ tb K). exact (el_del_event_tbl _ tb fd s' S K E).
@@ -553,7 +559,7 @@ Proof.
   assert (N1 : zmem fd (s_rrec s1) = false) by (rewrite Rr, remm_eq, Z.eqb_refl; reflexivity).
   assert (N2 : zmem fd (s_wrec s1) = false) by (rewrite Rw, remm_eq, Z.eqb_refl; reflexivity).
   unfold step_ok. cbn [step nd_step snd]. rewrite E. cbn [fst snd ok_step spec_step].
-  split; [reflexivity|]. split; [reflexivity|]. rewrite Y.
+  split; [reflexivity|]. split; [reflexivity|]. split; [|reflexivity]. rewrite Y.
   destruct (v_kern _ S1) as [tb1 K1].
   apply (forget_inv nfd l t n fd (os_close s1 fd) (void_fd fd t) (zadd fd (n_closed n)) (fun f _ => f =? fd)
            I0 Hfd (sinv_os_close s1 fd S1 N1 N2)); auto.
@@ -579,7 +585,7 @@ Proof.
   unfold step_ok. cbn [step nd_step snd]. destruct d; cbn [negb nreg] in Hp.
   - rewrite <- RR in Hp.
     destruct (el_del_write_spec _ tb fd S K) as [s' [E [S' [Ro [Rr [Rw _]]]]]].
-    rewrite E. cbn [fst snd ok_step spec_step]. split; [reflexivity|]. split; [reflexivity|]. rewrite Y.
+    rewrite E. cbn [fst snd ok_step spec_step]. split; [reflexivity|]. split; [reflexivity|]. split; [|reflexivity]. rewrite Y.
     apply (forget_inv nfd l t n fd s' (void_dir fd true t) (n_closed n) (fun f w => (f =? fd) && Bool.eqb w true)
              I0 Hfd S'); auto.
     + intros x Hx. rewrite Ro. now apply O.
@@ -591,7 +597,7 @@ Proof.
     + intros f w H. apply andb_true_iff in H as [H _]. now apply Z.eqb_eq.
   - rewrite <- WR in Hp.
     destruct (el_del_read_spec _ tb fd S K) as [s' [E [S' [Ro [Rr [Rw _]]]]]].
-    rewrite E. cbn [fst snd ok_step spec_step]. split; [reflexivity|]. split; [reflexivity|]. rewrite Y.
+    rewrite E. cbn [fst snd ok_step spec_step]. split; [reflexivity|]. split; [reflexivity|]. split; [|reflexivity]. rewrite Y.
     apply (forget_inv nfd l t n fd s' (void_dir fd false t) (n_closed n) (fun f w => (f =? fd) && Bool.eqb w false)
              I0 Hfd S'); auto.
     + intros x Hx. rewrite Ro. now apply O.
@@ -607,7 +613,7 @@ Lemma step_reopen : forall nfd l t n fd, Inv nfd l t n -> step_ok nfd l t n (Reo
 Proof.
   intros nfd l t n fd I. destruct I as [S Y Ut Ub J R O RR WR T L V].
   unfold step_ok. cbn [step nd_step fst snd ok_step spec_step].
-  split; [reflexivity|]. split; [reflexivity|].
+  split; [reflexivity|]. split; [reflexivity|]. split; [|reflexivity].
   constructor; cbn [with_sel l_sel l_sys l_cotok n_bind n_r n_w n_closed]; auto.
   - now apply sinv_os_open.
   - intros x Hx. cbn [os_open s_open with_open]. rewrite zmem_zadd, zmem_zrem, (O x Hx).
@@ -631,19 +637,20 @@ Qed.
 
 Lemma run_inv : forall nfd ops l t n,
   Inv nfd l t n -> wf_from nfd t ops = true -> nd_from t n ops = true ->
-  ok_from t ops (fst (run_from l ops)) = true.
+  ok_from t ops (fst (run_from l ops)) = true /\ l_ctags (snd (run_from l ops)) = l_ctags l.
 Proof.
-  intros nfd ops. induction ops as [|o ops IH]; intros l t n I Hwf Hp; [reflexivity|].
+  intros nfd ops. induction ops as [|o ops IH]; intros l t n I Hwf Hp; [split; reflexivity|].
   cbn [wf_from] in Hwf. apply andb_true_iff in Hwf as [Hw1 Hw2].
   cbn [nd_from] in Hp. destruct (nd_step t n o) as [pk n1] eqn:Ep.
   apply andb_true_iff in Hp as [Hp1 Hp2].
   assert (Hp1' : fst (nd_step t n o) = true) by now rewrite Ep.
-  destruct (step_inv nfd l t n o I Hw1 Hp1') as [A [B C]].
+  destruct (step_inv nfd l t n o I Hw1 Hp1') as [A [B [C D]]].
   cbn [run_from]. destruct (step l o) as [l1 r] eqn:Es. cbn [fst snd] in *.
-  destruct (run_from l1 ops) as [rs lf] eqn:Er. cbn [fst ok_from].
+  destruct (run_from l1 ops) as [rs lf] eqn:Er. cbn [fst snd ok_from].
   destruct (ok_step t o r) as [k t1] eqn:Eo. cbn [fst snd] in *. subst k t1. cbn [andb].
   rewrite Ep in C. cbn [snd] in C.
-  specialize (IH l1 (spec_step t o) n1 C Hw2 Hp2). now rewrite Er in IH.
+  specialize (IH l1 (spec_step t o) n1 C Hw2 Hp2). rewrite Er in IH. cbn [fst snd] in IH.
+  destruct IH as [IH1 IH2]. split; [exact IH1|]. now rewrite IH2.
 Qed.
 
 Lemma inv_init : forall nfd, 0 <= nfd -> Inv nfd (loop_init nfd) [] nd_init.
@@ -660,6 +667,16 @@ Proof.
   intros nfd ops Hwf Hp. unfold wf_C20 in Hwf. apply andb_true_iff in Hwf as [Hn Hwf].
   unfold ok_C20, run_C20. apply (run_inv nfd ops (loop_init nfd) [] nd_init); auto.
   apply inv_init. lia.
+Qed.
+
+(** the ghost tags of the two findings are raised on no history inside the premises *)
+Lemma no_tag_outside : forall nfd ops,
+  wf_C20 nfd ops = true -> no_defect ops = true -> fst (tags_C20 nfd ops) = [].
+Proof.
+  intros nfd ops Hwf Hp. unfold wf_C20 in Hwf. apply andb_true_iff in Hwf as [Hn Hwf].
+  unfold tags_C20. cbn [fst].
+  assert (I : Inv nfd (loop_init nfd) [] nd_init) by (apply inv_init; lia).
+  destruct (run_inv nfd ops (loop_init nfd) [] nd_init I Hwf Hp) as [_ T]. exact T.
 Qed.
 
 (** * The oracle's readiness clause in words *)
@@ -713,27 +730,27 @@ Qed.
 
 (** * The recorded findings *)
 Definition witness_missed : list op :=
-  [WaitT false 13712591878437130464 1; Wait false 440535360 1; Ready false 1].
+  [WaitT false 13712591878437130464 2; Wait false 440535360 2; Ready false 2].
 Definition witness_cross : list op :=
-  [WaitT false 6297203254532200539 0; Wait false 6297203254532200539 1; Ready false 0].
+  [WaitT false 6297203254532200539 1; Wait false 6297203254532200539 2; Ready false 1].
 Definition witness_one_token : list op :=
-  [Wait true 13712591878437130464 0; Wait false 440535360 0; Ready true 0].
+  [Wait true 13712591878437130464 1; Wait false 440535360 1; Ready true 1].
 
 Lemma refuted_missed : exists nfd ops, wf_C20 nfd ops = true /\ ok_C20 ops (run_C20 nfd ops) = false.
-Proof. exists 2, witness_missed. split; vm_compute; reflexivity. Qed.
+Proof. exists 3, witness_missed. split; vm_compute; reflexivity. Qed.
 
 Lemma refuted_cross : exists nfd ops, wf_C20 nfd ops = true /\ ok_C20 ops (run_C20 nfd ops) = false
   /\ run_C20 nfd ops = [ORegT true (Some (true, false, 6297203254532200539)) true;
                         OReg true (Some (true, false, 6297203254532200539));
                         OEvent 6297203254532200539 true [6297203254532200539]].
-Proof. exists 2, witness_cross. repeat split; vm_compute; reflexivity. Qed.
+Proof. exists 3, witness_cross. repeat split; vm_compute; reflexivity. Qed.
 
 Lemma refuted_one_token : exists nfd ops, wf_C20 nfd ops = true /\ ok_C20 ops (run_C20 nfd ops) = false
   /\ run_C20 nfd ops = [OReg true (Some (false, true, 13712591878437130464));
                         OReg true (Some (true, true, 440535360));
                         OEvent 440535360 true [440535360]]
   /\ fst (tags_C20 nfd ops) = [TagOneToken].
-Proof. exists 1, witness_one_token. repeat split; vm_compute; reflexivity. Qed.
+Proof. exists 2, witness_one_token. repeat split; vm_compute; reflexivity. Qed.
 
 (** * Close and reuse of a descriptor number, after ANY history *)
 
